@@ -186,8 +186,67 @@ func IteInt(c bool, a, b int) int {
 	return b
 }
 
-// NoAlias: natively approximated by the havoc formulation in the harness; always passes here.
-func NoAlias(a, b interface{}, label string) {}
+// NoAlias natively: no non-empty slice reachable from a (through pointers, interfaces, structs,
+// arrays and slices, unexported fields included) may overlap the memory of the byte slice b.
+func NoAlias(a, b interface{}, label string) {
+	bv := reflect.ValueOf(b)
+	if bv.Kind() != reflect.Slice || bv.Cap() == 0 {
+		return
+	}
+	lo := bv.Pointer()
+	hi := lo + uintptr(bv.Cap())*bv.Type().Elem().Size()
+	if overlaps(reflect.ValueOf(a), lo, hi, 0, map[uintptr]bool{}) {
+		panic(assertFail{label})
+	}
+}
+
+func overlaps(v reflect.Value, lo, hi uintptr, depth int, seen map[uintptr]bool) bool {
+	if !v.IsValid() || depth > 40 {
+		return false
+	}
+	switch v.Kind() {
+	case reflect.Ptr:
+		if v.IsNil() || seen[v.Pointer()] {
+			return false
+		}
+		seen[v.Pointer()] = true
+		return overlaps(v.Elem(), lo, hi, depth+1, seen)
+	case reflect.Interface:
+		if v.IsNil() {
+			return false
+		}
+		return overlaps(v.Elem(), lo, hi, depth+1, seen)
+	case reflect.Struct:
+		for i := 0; i < v.NumField(); i++ {
+			if overlaps(v.Field(i), lo, hi, depth+1, seen) {
+				return true
+			}
+		}
+	case reflect.Array:
+		for i := 0; i < v.Len(); i++ {
+			if overlaps(v.Index(i), lo, hi, depth+1, seen) {
+				return true
+			}
+		}
+	case reflect.Slice:
+		if v.Len() == 0 {
+			return false
+		}
+		p := v.Pointer()
+		if q := p + uintptr(v.Len())*v.Type().Elem().Size(); p < hi && q > lo {
+			return true
+		}
+		switch v.Type().Elem().Kind() {
+		case reflect.Ptr, reflect.Interface, reflect.Struct, reflect.Slice, reflect.Array:
+			for i := 0; i < v.Len(); i++ {
+				if overlaps(v.Index(i), lo, hi, depth+1, seen) {
+					return true
+				}
+			}
+		}
+	}
+	return false
+}
 
 func Observe(label string, v interface{}) {
 	observes = append(observes, label+"="+render(reflect.ValueOf(v), 0))
